@@ -1,4 +1,5 @@
 import Upa.Proofs.Bounds
+import Upa.Proofs.Utf
 import Upa.Impl.Host
 /-
   Helper lemmas for C04b, part 2: the bounds-instrumented models of `Upa/Impl/Bounds.lean` compute the
@@ -412,4 +413,420 @@ theorem readU8_agrees (a : Array Nat) (first last : Nat) (h : first < last) (hl 
       · simp only [if_pos hc]; refine R.sat_pure ?_; simp only []
       · simp only [if_neg hc]; refine R.sat_pure ?_; simp only []; rw [slice_cons a (first + 1) last hp1 hl]
     · refine R.sat_pure ?_; simp only []; rw [slice_cons a (first + 1) last hp1 hl]
+
+/-! ### the `assert` of compare_by_code_units -/
+
+
+theorem R.sat_and {α : Type} {r : R α} {P Q : α → Prop} (h1 : r.sat P) (h2 : r.sat Q) :
+    r.sat (fun v => P v ∧ Q v) := by
+  obtain ⟨v, hv, hp⟩ := h1
+  obtain ⟨w, hw, hq⟩ := h2
+  rw [hv] at hw
+  cases hw
+  exact ⟨v, hv, hp, hq⟩
+
+theorem mem_slice (a : Array Nat) (p last x : Nat) (hl : last ≤ a.size) (hx : x ∈ slice a p last) :
+    ∃ i, p ≤ i ∧ i < last ∧ x = a[i]! := by
+  simp only [slice, Array.mem_toList_iff] at hx
+  obtain ⟨k, hk, rfl⟩ := Array.mem_iff_getElem.1 hx
+  simp only [Array.size_extract] at hk
+  refine ⟨p + k, by omega, by omega, ?_⟩
+  rw [Array.getElem_extract, getElem!_pos a (p + k) (by omega)]
+
+theorem readUtfChar_u8_scalar (a : Array Nat) (first last it : Nat) (h1 : first ≤ it) (h : it < last)
+    (hl : last ≤ a.size) (hb : ∀ i, first ≤ i → i < last → a[i]! < 256) :
+    (readUtfChar .u8 a first last it).sat (fun r => (it < r.2 ∧ r.2 ≤ last) ∧ Spec.isScalar r.1 = true) := by
+  simp only [readUtfChar, sub_ok h1 (Nat.le_of_lt h) (Nat.le_refl _), R.ok_bind, readChar]
+  have hb' : ∀ i, it ≤ i → i < last → a[i]! < 256 := fun i hi1 hi2 => hb i (by omega) hi2
+  refine R.sat_bind (R.sat_and (readU8_sat a it last h hl) (readU8_agrees a it last h hl hb')) ?_
+  intro ⟨ok, cp, it'⟩ ⟨hp, hag⟩
+  refine R.sat_pure ⟨hp, ?_⟩
+  simp only [] at hag ⊢
+  have hmem : ∀ x ∈ slice a it last, x < 256 := by
+    intro x hx
+    obtain ⟨i, hi1, hi2, rfl⟩ := mem_slice a it last x hl hx
+    exact hb' i hi1 hi2
+  rw [Impl.readU8_eq_readU8A _ hmem] at hag
+  have hs := Impl.readU8A_scalar (slice a it last)
+  rw [hag] at hs
+  split
+  · rename_i hok; exact hs hok
+  · decide
+
+theorem lead_of_eq (cp1 cp2 : Nat) (s1 : Spec.isScalar cp1 = true) (s2 : Spec.isScalar cp2 = true) (hne : cp1 ≠ cp2)
+    (heq : (if cp1 ≤ 0xFFFF then cp1 else (cp1 >>> 10) + 0xD7C0) = (if cp2 ≤ 0xFFFF then cp2 else (cp2 >>> 10) + 0xD7C0)) :
+    (if cp1 ≤ 0xFFFF then cp1 else (cp1 >>> 10) + 0xD7C0) &&& 0xFFFFFC00 = 0xD800 := by
+  rw [Impl.isScalar_iff] at s1 s2
+  rw [Impl.andHi10]
+  simp only [Impl.shr10] at heq ⊢
+  split at heq <;> split at heq <;> simp only [*, if_true, if_false] <;> omega
+theorem sat_chk {c : Prop} [Decidable c] (hc : c) : (chk c).sat (fun _ => True) := by
+  unfold chk; rw [if_pos hc]; exact ⟨(), rfl, trivial⟩
+
+/-- on byte buffers (`const char*`) compare_by_code_units neither leaves its ranges nor fails its
+    `assert(u16_is_lead(cu1))` -/
+theorem compareByCodeUnits_sat (a1 : Array Nat) (first1 last1 : Nat) (a2 : Array Nat) (first2 last2 : Nat)
+    (h1 : first1 ≤ last1) (hl1 : last1 ≤ a1.size) (h2 : first2 ≤ last2) (hl2 : last2 ≤ a2.size)
+    (hb1 : ∀ i, first1 ≤ i → i < last1 → a1[i]! < 256) (hb2 : ∀ i, first2 ≤ i → i < last2 → a2[i]! < 256) :
+    (compareByCodeUnits a1 first1 last1 a2 first2 last2).sat (fun _ => True) := by
+  unfold compareByCodeUnits
+  refine iter_sat _ (fun s => first1 ≤ s.1 ∧ s.1 ≤ last1 ∧ first2 ≤ s.2 ∧ s.2 ≤ last2) (fun s => last1 - s.1)
+    (fun _ => True) ?_ _ _ ?_ ?_
+  · intro ⟨it1, it2⟩ hI
+    simp only at hI ⊢
+    split
+    · rename_i hc
+      simp only [rd_ok hI.1 (by omega : it1 < last1) hl1, rd_ok hI.2.2.1 (by omega : it2 < last2) hl2, R.ok_bind]
+      split
+      · split
+        · rfin
+        · rfin
+      · refine R.sat_bind (readUtfChar_u8_scalar a1 first1 last1 it1 hI.1 (by omega) hl1 hb1) ?_
+        intro ⟨cp1, it1'⟩ ⟨hv1, hs1⟩
+        refine R.sat_bind (readUtfChar_u8_scalar a2 first2 last2 it2 hI.2.2.1 (by omega) hl2 hb2) ?_
+        intro ⟨cp2, it2'⟩ ⟨hv2, hs2⟩
+        simp only at hv1 hv2 hs1 hs2 ⊢
+        split
+        · rfin
+        · rename_i hne
+          have hlead := lead_of_eq cp1 cp2 hs1 hs2 hne
+          generalize (if cp1 ≤ 0xFFFF then cp1 else (cp1 >>> 10) + 0xD7C0) = cu1 at hlead ⊢
+          generalize (if cp2 ≤ 0xFFFF then cp2 else (cp2 >>> 10) + 0xD7C0) = cu2 at hlead ⊢
+          split
+          · rename_i heq
+            refine R.sat_bind (sat_chk (hlead heq)) ?_
+            intro _ _
+            rfin
+          · rfin
+    · rfin
+  · rarith
+  · rarith
+
+/-! ### has_dot_dot_segment -/
+
+
+/-- the `prev` argument of the list model at pointer `p` -/
+def prevOf (a : Array Nat) (first p : Nat) : Option Nat := if p = first then none else some a[p - 1]!
+
+theorem hasDot_short (isSl : Nat → Bool) (prev : Option Nat) (l : List Nat) (h : l.length ≤ 1) :
+    Impl.hasDotDotSegment isSl prev l = false := by
+  rcases l with _ | ⟨x, _ | ⟨y, t⟩⟩ <;> simp [Impl.hasDotDotSegment] at h ⊢
+
+theorem hasDot_cons2 (isSl : Nat → Bool) (prev : Option Nat) (c d : Nat) (r2 : List Nat) :
+    Impl.hasDotDotSegment isSl prev (c :: d :: r2) =
+      if c = 0x2E then
+        if (d = 0x2E && (match prev with | none => true | some p => isSl p) &&
+           (match r2 with | [] => true | x :: _ => isSl x)) = true then true
+        else Impl.hasDotDotSegment isSl (some d) r2
+      else Impl.hasDotDotSegment isSl (some c) (d :: r2) := by
+  rw [Impl.hasDotDotSegment.eq_def]
+  cases r2 <;> rfl
+
+theorem hasDot_skip (isSl : Nat → Bool) (a : Array Nat) (first last : Nat) (hl : last ≤ a.size) :
+    ∀ k p, first ≤ p → p + k ≤ last - 1 → (∀ i, p ≤ i → i < p + k → a[i]! ≠ 0x2E) →
+      Impl.hasDotDotSegment isSl (prevOf a first p) (slice a p last) =
+      Impl.hasDotDotSegment isSl (prevOf a first (p + k)) (slice a (p + k) last) := by
+  intro k
+  induction k with
+  | zero => intro p _ _ _; rfl
+  | succ k ih =>
+    intro p h0 h1 h2
+    rw [slice_cons a p last (by omega) hl, slice_cons a (p + 1) last (by omega) hl]
+    have hp := h2 p (Nat.le_refl _) (by omega)
+    rw [hasDot_cons2, if_neg hp]
+    have := ih (p + 1) (by omega) (by omega) (by intro i hi1 hi2; exact h2 i (by omega) (by omega))
+    rw [slice_cons a (p + 1) last (by omega) hl] at this
+    have e : p + 1 + k = p + (k + 1) := by omega
+    rw [e] at this
+    rw [← this]
+    simp only [prevOf, if_neg (by omega : ¬ p + 1 = first), Nat.add_sub_cancel]
+
+theorem hasDotDotSegment_agrees (isSl : Nat → Bool) (a : Array Nat) (first last : Nat) (h : first ≤ last)
+    (hl : last ≤ a.size) :
+    hasDotDotSegment isSl a first last = .ok (Impl.hasDotDotSegment isSl none (slice a first last)) := by
+  suffices hs : (hasDotDotSegment isSl a first last).sat
+      (fun b => b = Impl.hasDotDotSegment isSl none (slice a first last)) by
+    obtain ⟨v, hv, hb⟩ := hs
+    rw [hv, hb]
+  have hV : Impl.hasDotDotSegment isSl none (slice a first last) =
+      Impl.hasDotDotSegment isSl (prevOf a first first) (slice a first last) := by simp [prevOf]
+  rw [hV]
+  unfold hasDotDotSegment
+  split
+  · rename_i h2
+    refine iter_sat _ (fun p => first ≤ p ∧ p ≤ last - 1 ∧
+        Impl.hasDotDotSegment isSl (prevOf a first p) (slice a p last) =
+        Impl.hasDotDotSegment isSl (prevOf a first first) (slice a first last))
+      (fun p => last - p) _ ?_ _ _ ?_ ?_
+    · intro p ⟨hI1, hI2, hI3⟩
+      refine R.sat_bind (findCh_spec a first last 0x2E hl (last - 1 - p) p hI1 (by omega)) ?_
+      intro r hr
+      cases r with
+      | none =>
+        refine R.sat_pure ?_
+        simp only [] at hr ⊢
+        have := hasDot_skip isSl a first last hl (last - 1 - p) p hI1 (by omega) hr
+        rw [← hI3, this, hasDot_short isSl _ _ (by rw [slice_length a _ _ hl]; omega)]
+      | some q =>
+        obtain ⟨q1, q2, q3, q4⟩ := hr
+        have hskip := hasDot_skip isSl a first last hl (q - p) p hI1 (by omega)
+          (by intro i h1 h2; exact q4 i h1 (by omega))
+        have e : p + (q - p) = q := by omega
+        rw [e, slice_cons a q last (by omega) hl, slice_cons a (q + 1) last (by omega) hl] at hskip
+        rw [hasDot_cons2, if_pos q3] at hskip
+        have e2 : q + 1 + 1 = q + 2 := by omega
+        rw [e2] at hskip
+        simp only [rd_ok (by omega : first ≤ q + 1) (by omega : q + 1 < last) hl, R.ok_bind]
+        refine R.sat_bind (P := fun b => b = (decide (a[q + 1]! = 0x2E) &&
+            (match prevOf a first q with | none => true | some p => isSl p) &&
+            (match slice a (q + 2) last with | [] => true | x :: _ => isSl x))) ?_ ?_
+        · split
+          · rename_i hd
+            refine R.sat_bind (P := fun b => b = (match prevOf a first q with | none => true | some p => isSl p)) ?_ ?_
+            · split
+              · rename_i hqf
+                exact R.sat_pure (by simp [prevOf, hqf])
+              · rename_i hqf
+                simp only [rdPrev_ok (by omega : first < q) (by omega : q ≤ last) hl, R.ok_bind]
+                exact R.sat_pure (by simp [prevOf, hqf])
+            · intro left hleft
+              split
+              · rename_i hlt
+                split
+                · rename_i h22
+                  refine R.sat_pure ?_
+                  rw [slice_nil a (q + 2) last (by omega), ← hleft, hlt, hd]; rfl
+                · rename_i h22
+                  simp only [rd_ok (by omega : first ≤ q + 2) (by omega : q + 2 < last) hl, R.ok_bind]
+                  refine R.sat_pure ?_
+                  rw [slice_cons a (q + 2) last (by omega) hl, ← hleft, hlt, hd]; simp
+              · rename_i hlt
+                refine R.sat_pure ?_
+                have : left = false := by simpa using hlt
+                rw [← hleft, this]; simp
+          · rename_i hd
+            exact R.sat_pure (by simp [hd])
+        · intro hit hhit
+          rw [← hhit] at hskip
+          split
+          · rename_i ht
+            refine R.sat_pure ?_
+            simp only []
+            rw [← hI3, hskip, ht]; rfl
+          · rename_i hf
+            have hf' : hit = false := by simpa using hf
+            rw [hf'] at hskip
+            simp only [Bool.false_eq_true, if_false] at hskip
+            have hprev : prevOf a first (q + 2) = some a[q + 1]! := by
+              simp only [prevOf, if_neg (by omega : ¬ q + 2 = first)]; rfl
+            split
+            · refine R.sat_pure ?_
+              simp only []
+              rw [← hI3, hskip, hasDot_short isSl _ _ (by rw [slice_length a _ _ hl]; omega)]
+            · refine R.sat_pure ?_
+              simp only []
+              refine ⟨⟨by omega, by omega, ?_⟩, by omega⟩
+              rw [← hI3, hskip, hprev]
+    · exact ⟨Nat.le_refl _, by omega, rfl⟩
+    · rarith
+  · refine R.sat_pure ?_
+    rw [hasDot_short isSl _ _ (by rw [slice_length a _ _ hl]; omega)]
+
+/-! ### ipv4_parse_number -/
+
+
+theorem skipZeros_cons_ne (c : Nat) (r : List Nat) (h : c ≠ 0x30) : Impl.skipZeros (c :: r) = c :: r := by
+  rw [Impl.skipZeros.eq_def]
+  split
+  · rename_i heq; cases heq; exact absurd rfl h
+  · rfl
+theorem skipZeros_cons_eq (r : List Nat) : Impl.skipZeros (0x30 :: r) = Impl.skipZeros r := by
+  rw [Impl.skipZeros]
+
+theorem accumulate_cons (radix ch : Nat) (cs : List Nat) (num : Nat) :
+    Impl.accumulate radix (ch :: cs) num =
+      if radix ≤ 10 then
+        if ch > 0x30 - 1 + radix ∨ ch < 0x30 then none
+        else Impl.accumulate radix cs ((num * radix + (ch - 0x30)) % 2^64)
+      else
+        if (!isHex ch) = true then none
+        else Impl.accumulate radix cs ((num * radix + hexVal ch) % 2^64) := by
+  rw [Impl.accumulate]
+
+/-- the common tail of ipv4_parse_number: emptiness / length test, accumulation, 32-bit check -/
+def numTail (radix : Nat) (body : List Nat) : Option Nat :=
+  if body = [] then some 0
+  else if body.length > 11 then none
+  else match Impl.accumulate radix body 0 with
+    | some v => if v > 0xFFFFFFFF then none else some v
+    | none => none
+
+theorem ipv4Num_A (c0 : Nat) (rest : List Nat) (h : c0 ≠ 0x30) :
+    Impl.ipv4ParseNumber (c0 :: rest) = numTail 10 (c0 :: rest) := by
+  unfold Impl.ipv4ParseNumber numTail
+  split
+  · rename_i heq; cases heq
+  · rename_i heq; cases heq; exact absurd rfl h
+  · rename_i heq; cases heq; exact absurd rfl h
+  · simp; rfl
+
+theorem ipv4Num_C (c1 : Nat) (rest : List Nat) :
+    Impl.ipv4ParseNumber (0x30 :: c1 :: rest) =
+      numTail (if c1 = 0x58 ∨ c1 = 0x78 then 16 else 8)
+        (Impl.skipZeros (if c1 = 0x58 ∨ c1 = 0x78 then rest else c1 :: rest)) := by
+  unfold numTail
+  rw [Impl.ipv4ParseNumber]
+  by_cases hc : c1 = 0x58 ∨ c1 = 0x78
+  · simp only [if_pos hc]; rfl
+  · simp only [if_neg hc]; rfl
+
+theorem ipv4ParseNumber_agrees (a : Array Nat) (first last : Nat) (h : first ≤ last) (hl : last ≤ a.size)
+    (hb : ∀ i, first ≤ i → i < last → a[i]! < 256) :
+    ipv4ParseNumber a first last = .ok (Impl.ipv4ParseNumber (slice a first last)) := by
+  suffices hs : (ipv4ParseNumber a first last).sat (fun r => r = Impl.ipv4ParseNumber (slice a first last)) by
+    obtain ⟨v, hv, hr⟩ := hs
+    rw [hv, hr]
+  unfold ipv4ParseNumber
+  split
+  · rename_i hfl
+    rw [slice_nil a first last (by omega)]
+    exact R.sat_pure rfl
+  rename_i hne
+  have hlt : first < last := by omega
+  simp only [rd_ok (Nat.le_refl first) hlt hl, R.ok_bind]
+  refine R.sat_bind (P := fun pre => match pre with
+      | .inl r => r = Impl.ipv4ParseNumber (slice a first last)
+      | .inr (radix, p) => first ≤ p ∧ p ≤ last ∧ (radix = 8 ∨ radix = 10 ∨ radix = 16) ∧
+          numTail radix (slice a p last) = Impl.ipv4ParseNumber (slice a first last)) ?_ ?_
+  · split
+    · rename_i hc0
+      split
+      · rename_i h1
+        refine R.sat_pure ?_
+        simp only []
+        rw [slice_cons a first last hlt hl, slice_nil a (first + 1) last (by omega), hc0]
+        rfl
+      · rename_i h1
+        have hlt1 : first + 1 < last := by omega
+        simp only [rd_ok (by omega : first ≤ first + 1) hlt1 hl, R.ok_bind]
+        have hV : Impl.ipv4ParseNumber (slice a first last) =
+            numTail (if a[first + 1]! = 0x58 ∨ a[first + 1]! = 0x78 then 16 else 8)
+              (Impl.skipZeros (slice a (if a[first + 1]! = 0x58 ∨ a[first + 1]! = 0x78 then first + 2 else first + 1) last)) := by
+          rw [slice_cons a first last hlt hl, slice_cons a (first + 1) last hlt1 hl, hc0, ipv4Num_C]
+          by_cases hx : a[first + 1]! = 0x58 ∨ a[first + 1]! = 0x78
+          · simp only [if_pos hx]
+          · simp only [if_neg hx]; rw [slice_cons a (first + 1) last hlt1 hl]
+        generalize hrp : (if a[first + 1]! = 0x58 ∨ a[first + 1]! = 0x78 then ((16 : Nat), first + 2) else (8, first + 1)) = rp
+        have hrp1 : rp.1 = (if a[first + 1]! = 0x58 ∨ a[first + 1]! = 0x78 then 16 else 8) := by
+          rw [← hrp]; split <;> rfl
+        have hrp2 : rp.2 = (if a[first + 1]! = 0x58 ∨ a[first + 1]! = 0x78 then first + 2 else first + 1) := by
+          rw [← hrp]; split <;> rfl
+        rw [← hrp1, ← hrp2] at hV
+        have hr2 : first ≤ rp.2 ∧ rp.2 ≤ last := by rw [hrp2]; split <;> omega
+        have hr1 : rp.1 = 8 ∨ rp.1 = 10 ∨ rp.1 = 16 := by rw [hrp1]; split <;> omega
+        refine R.sat_bind (iter_sat _
+          (fun p => first ≤ p ∧ p ≤ last ∧ Impl.skipZeros (slice a p last) = Impl.skipZeros (slice a rp.2 last))
+          (fun p => last - p)
+          (fun p => first ≤ p ∧ p ≤ last ∧ slice a p last = Impl.skipZeros (slice a rp.2 last)) ?_ _ _ ?_ ?_) ?_
+        · intro p ⟨hp1, hp2, hp3⟩
+          split
+          · rename_i hpl
+            simp only [rd_ok hp1 hpl hl, R.ok_bind]
+            split
+            · rename_i hz
+              refine R.sat_pure ⟨⟨by omega, by omega, ?_⟩, by omega⟩
+              rw [← hp3, slice_cons a p last hpl hl, hz, skipZeros_cons_eq]
+            · rename_i hz
+              refine R.sat_pure ⟨hp1, hp2, ?_⟩
+              rw [← hp3, slice_cons a p last hpl hl, skipZeros_cons_ne _ _ hz]
+          · rename_i hpl
+            refine R.sat_pure ⟨hp1, hp2, ?_⟩
+            rw [← hp3, slice_nil a p last (by omega)]
+            rfl
+        · exact ⟨hr2.1, hr2.2, rfl⟩
+        · have := hr2.1; omega
+        · intro p ⟨hp1, hp2, hp3⟩
+          refine R.sat_pure ?_
+          simp only []
+          exact ⟨hp1, hp2, hr1, by rw [hp3, hV]⟩
+    · rename_i hc0
+      refine R.sat_pure ?_
+      simp only []
+      refine ⟨Nat.le_refl _, h, by simp, ?_⟩
+      rw [slice_cons a first last hlt hl, ipv4Num_A _ _ hc0]
+  · intro pre hpre
+    cases pre with
+    | inl r => exact R.sat_pure hpre
+    | inr rp =>
+      obtain ⟨radix, p⟩ := rp
+      obtain ⟨hp1, hp2, hrad, hV⟩ := hpre
+      simp only []
+      rw [← hV]
+      unfold numTail
+      split
+      · rename_i hpl
+        rw [slice_nil a p last (by omega)]
+        exact R.sat_pure (by simp)
+      rename_i hpl
+      have hne' : slice a p last ≠ [] := by
+        intro he
+        have := slice_length a p last hl
+        rw [he] at this
+        simp at this
+        omega
+      rw [if_neg hne', slice_length a p last hl]
+      split
+      · rename_i h11
+        exact R.sat_pure rfl
+      rename_i h11
+      refine R.sat_bind (iter_sat _
+        (fun s => p ≤ s.1 ∧ s.1 ≤ last ∧
+          Impl.accumulate radix (slice a s.1 last) s.2 = Impl.accumulate radix (slice a p last) 0)
+        (fun s => last - s.1)
+        (fun r => r = Impl.accumulate radix (slice a p last) 0) ?_ _ _ ?_ ?_) ?_
+      · intro ⟨it, num⟩ ⟨hi1, hi2, hi3⟩
+        simp only at hi1 hi2 hi3 ⊢
+        split
+        · rename_i hil
+          refine R.sat_pure ?_
+          simp only []
+          rw [← hi3, slice_nil a it last (by omega)]
+          rfl
+        rename_i hil
+        have hitl : it < last := by omega
+        simp only [rd_ok (by omega : first ≤ it) hitl hl, R.ok_bind]
+        rw [slice_cons a it last hitl hl, accumulate_cons] at hi3
+        have hm : a[it]! % 256 = a[it]! := Nat.mod_eq_of_lt (hb it (by omega) hitl)
+        split
+        · rename_i hr10
+          rw [if_pos hr10] at hi3
+          split
+          · rename_i hbad
+            rw [if_pos hbad] at hi3
+            exact R.sat_pure hi3
+          · rename_i hbad
+            rw [if_neg hbad] at hi3
+            exact R.sat_pure ⟨⟨by simp only []; omega, by simp only []; omega, hi3⟩, by simp only []; omega⟩
+        · rename_i hr10
+          rw [if_neg hr10] at hi3
+          simp only [hm]
+          split
+          · rename_i hbad
+            rw [if_pos hbad] at hi3
+            exact R.sat_pure hi3
+          · rename_i hbad
+            rw [if_neg hbad] at hi3
+            simp only [idx_ok (by omega : a[it]! / 0x20 < 8), R.ok_bind]
+            exact R.sat_pure ⟨⟨by simp only []; omega, by simp only []; omega, hi3⟩, by simp only []; omega⟩
+      · exact ⟨Nat.le_refl _, hp2, rfl⟩
+      · rarith
+      · intro r hr
+        rw [← hr]
+        cases r with
+        | none => exact R.sat_pure rfl
+        | some num =>
+          simp only []
+          split <;> rename_i hbig
+          · exact R.sat_pure (by simp only [])
+          · exact R.sat_pure (by simp only [])
 end Upa.Impl.B
